@@ -877,4 +877,57 @@ def notRegister (lst a : Nat) (once : Bool) : NotReg → NotReg
 def notNotify (r : NotReg) : NotReg × List (Nat × Nat) :=
   (r.filter fun p => !p.2.2, r.map fun p => (p.2.1, p.1))
 
+/-- `NotificationCenter._registrations`: object ↦ message ↦ ordered dict listener ↦ action.  Entries
+    that became empty stay (the code never deletes them by itself). -/
+abbrev NotCenter := List (Nat × List (Nat × NotReg))
+
+def ncMsgs (c : NotCenter) (obj : Nat) : Option (List (Nat × NotReg)) := (c.find? (·.1 == obj)).map (·.2)
+
+def ncLookup (c : NotCenter) (obj msg : Nat) : Option NotReg :=
+  (ncMsgs c obj).bind fun ms => (ms.find? (·.1 == msg)).map (·.2)
+
+def msgsSet (msg : Nat) (r : NotReg) : List (Nat × NotReg) → List (Nat × NotReg)
+  | [] => [(msg, r)]
+  | (m, x) :: rest => if m = msg then (m, r) :: rest else (m, x) :: msgsSet msg r rest
+
+def ncSetMsgs (obj : Nat) (ms : List (Nat × NotReg)) : NotCenter → NotCenter
+  | [] => [(obj, ms)]
+  | (o, x) :: rest => if o = obj then (o, ms) :: rest else (o, x) :: ncSetMsgs obj ms rest
+
+/-- `_registrations[obj][msg] = r`, creating the levels that do not exist -/
+def ncSet (c : NotCenter) (obj msg : Nat) (r : NotReg) : NotCenter :=
+  ncSetMsgs obj (msgsSet msg r ((ncMsgs c obj).getD [])) c
+
+/-- `register` / `register_one_shot` -/
+def ncRegister (c : NotCenter) (obj msg lst a : Nat) (once : Bool) : NotCenter :=
+  ncSet c obj msg (notRegister lst a once ((ncLookup c obj msg).getD []))
+
+/-- `unregister(obj, msg, listener)`; `none` = KeyError -/
+def ncUnregister (c : NotCenter) (obj : Nat) (msg lst : Option Nat) : Option NotCenter :=
+  match ncMsgs c obj with
+  | none => none
+  | some ms =>
+    match msg with
+    | none => some (c.filter (·.1 != obj))                                -- `del _registrations[obj]`
+    | some m =>
+      match ms.find? (·.1 == m) with
+      | none => none
+      | some (_, r) =>
+        match lst with
+        | none => some (ncSetMsgs obj (ms.filter (·.1 != m)) c)           -- `del _registrations[obj][msg]`
+        | some l =>
+          if r.any (·.1 == l) then some (ncSet c obj m (r.filter (·.1 != l)))   -- only that listener
+          else none
+
+/-- `notify(obj, msg)` -/
+def ncNotify (c : NotCenter) (obj msg : Nat) : NotCenter × List (Nat × Nat) :=
+  match ncLookup c obj msg with
+  | none => (c, [])
+  | some r => let (r', l) := notNotify r; (ncSet c obj msg r', l)
+
+def ncExists (c : NotCenter) (obj msg lst : Nat) : Bool :=
+  match ncLookup c obj msg with
+  | some r => r.any (·.1 == lst)
+  | none => false
+
 end Sc3Verif.C18
